@@ -25,7 +25,10 @@ What is modelled (the code that exists, libcalico-go/lib/ipam):
   `incrementHandle(h,b,n)` gives the thread a token (t,h,b,n); the block write
   that allocates for `h` consumes it; a block write that releases addresses of
   `h` creates a token; `decrementHandle(h,b,n)` consumes one.  A crashed thread
-  simply never spends its tokens.
+  simply never spends its tokens.  (After the repair 9cd85f1 the increment is by
+  the number of addresses actually taken, so the allocating write must take
+  exactly the token's count.)  One path of the code decrements WITHOUT a release
+  of its own (`Payload.staleDel`); `St.stale` counts its occurrences.
 
 A state transition is `step s ev`: it is `none` when the event is not an
 instance of the protocol (inadmissible), otherwise the successor state.  Since
@@ -78,6 +81,8 @@ structure St where
   aff : Nat → Nat → Option (Nat × AffSt)
   creds : List Cred
   got : Nat → List (Nat × Nat)
+  /-- number of "stale delete" grants so far (see `Payload.staleDel`) -/
+  stale : Nat := 0
 
 def St.init (rev0 nb : Nat) : St :=
   { rev := rev0, nb := nb, blk := fun _ => none, hdl := fun _ => none, aff := fun _ _ => none,
@@ -150,6 +155,10 @@ def ordsOf (h : Nat) : Nat → List Slot → List Nat
   | _, [] => []
   | i, s :: ss => (if s == Slot.live h then [i] else []) ++ ordsOf h (i + 1) ss
 
+/-- Slots after `releaseByHandle(h)`: every ordinal live for `h` goes to cooldown. -/
+def relhAux (h : Nat) (ss : List Slot) : List Slot :=
+  ss.map (fun s => if s == Slot.live h then Slot.cool else s)
+
 def liveCount (h : Nat) (s : List Slot) : Nat := s.countP (· == Slot.live h)
 
 def Blk.empty (b : Blk) : Bool := b.slots.all (· == Slot.free)
@@ -198,9 +207,8 @@ def applyBOp (op : BOp) (b : Blk) : Option BRes :=
       some { v := { b with slots := relAux ords 0 b.slots }, debits := ds }
     else none
   | .relh h =>
-    let R := ordsOf h 0 b.slots
-    if h != 0 && R.length ≥ 1 then
-      some { v := { b with slots := relAux R 0 b.slots }, debits := [(h, relCnt R h 0 b.slots)] }
+    if h != 0 && liveCount h b.slots ≥ 1 then
+      some { v := { b with slots := relhAux h b.slots }, debits := [(h, liveCount h b.slots)] }
     else none
   | .clearAff => some { v := { b with aff := none } }
   | .bump => some { v := b }
@@ -268,6 +276,10 @@ inductive Payload where
   | affSt (st : AffSt)
   | affDel
   | noev
+  /-- `releaseByHandle`: the compare-and-delete of the block answered NotFound (someone
+  else deleted it) and the code carries on to `decrementHandle(h, b, n)` with the count
+  `n` it computed from the block it had read: a token NOT backed by any release. -/
+  | staleDel (h n : Nat)
 deriving Repr
 
 structure Call where
@@ -311,7 +323,7 @@ def spend (t b : Nat) (need : Option (Nat × Nat)) (cs : List Cred) : Option (Li
   match need with
   | none => some cs
   | some (h, k) =>
-    match cs.find? (fun c => c.t == t && c.h == h && c.b == b && k ≤ c.n) with
+    match cs.find? (fun c => c.t == t && c.h == h && c.b == b && c.n == k) with
     | some c => some (cs.erase c)
     | none => none
 
@@ -421,6 +433,11 @@ def step (s : St) : Ev → Option St
   | .call c =>
     match casOutcome (s.curRev c.key) c.verb c.rev c.fault with
     | .ok => if c.verb.isWrite then (if ownOk s c then applyWrite s c else none) else some s
+    | .notfound =>
+      match c.key, c.verb, c.pl with
+      | .blk b, .delete, .staleDel h n =>
+        some { s with creds := { t := c.t, h := h, b := b, n := n } :: s.creds, stale := s.stale + 1 }
+      | _, _, _ => some s
     | _ => some s
 
 def run (s : St) : List Ev → Option St
